@@ -86,6 +86,68 @@ VblRegionsOk(lens) ==
 \* Portals: MOPT record idx addresses pvlens[idx] vertices of MOPV starting at PortalStart
 PortalStart(pvlens, idx) == Sum([j \in 1..(idx - 1) |-> pvlens[j]])
 
+\* ------------------------------------------------------------------ portal graph of a root (MOPR)
+\* SMOPortalRef (8 bytes): portalIndex u16 @0, groupIndex u16 @2, side i16 @4, filler u16 @6.  A portal joins two
+\* groups: it is referenced exactly twice, from two different groups, once per side.
+MoprFieldOffs == [portal |-> 0, group |-> 2, side |-> 4]
+\* refs: sequence of [portal, group, side]; np portals, ng groups
+PortalGraphOk(refs, np, ng) ==
+    /\ \A j \in 1..Len(refs) : refs[j].portal \in 0..(np - 1) /\ refs[j].group \in 0..(ng - 1) /\ refs[j].side \in {0, 1}
+    /\ \A p \in 0..(np - 1) :
+          LET mine == {j \in 1..Len(refs) : refs[j].portal = p} IN
+          /\ Cardinality(mine) = 2
+          /\ \A a \in mine, b \in mine : a # b => (refs[a].group # refs[b].group /\ refs[a].side # refs[b].side)
+\* a ring of np portals over ng >= 2 groups: portal p joins group p mod ng and group (p+1) mod ng
+PortalRing(np, ng) == [j \in 1..(2 * np) |->
+    LET p == (j - 1) \div 2 IN
+    IF j % 2 = 1 THEN [portal |-> p, group |-> p % ng, side |-> 0] ELSE [portal |-> p, group |-> (p + 1) % ng, side |-> 1]]
+PortalRingsOk == \A np \in 1..4, ng \in 2..4 : PortalGraphOk(PortalRing(np, ng), np, ng)
+PortalMutantsRejected ==
+    /\ ~PortalGraphOk([PortalRing(3, 3) EXCEPT ![2].group = 0], 3, 3)         \* both sides in the same group
+    /\ ~PortalGraphOk([PortalRing(3, 3) EXCEPT ![4].portal = 0], 3, 3)        \* a portal referenced three times
+    /\ ~PortalGraphOk(PortalRing(3, 3), 3, 2)                                 \* group index out of range
+
+\* ------------------------------------------------------------------ BSP tree of a group (MOBN)
+\* CAaBspNode (wmo.md "MOBN - BSP Nodes"), 16 bytes: flags u16 @0 (bits 0-1 split axis, bit 2 leaf), negChild i16 @2,
+\* posChild i16 @4, nFaces u16 @6, faceStart u32 @8, planeDist f32 @12.  Child indices are 0-based, -1 = none.
+MobnFieldOffs == [flags |-> 0, neg |-> 2, pos |-> 4, nfaces |-> 6, fstart |-> 8, dist |-> 12]
+\* a node as the specification sees it: [axis, leaf, neg, pos, nfaces, fstart]
+BspIsLeaf(nd) == nd.neg = -1 /\ nd.pos = -1
+BspWellFormed(ns) ==
+    LET n       == Len(ns)
+        Parents(j) == {q \in 1..n : ns[q].neg = j - 1 \/ ns[q].pos = j - 1}
+        Leaves  == {j \in 1..n : BspIsLeaf(ns[j])}
+    IN  /\ \A j \in 1..n :
+              /\ ns[j].axis \in 0..2
+              /\ ns[j].leaf = BspIsLeaf(ns[j])
+              \* inner node: two distinct children stored behind it (pre-order: no cycles)
+              /\ (BspIsLeaf(ns[j]) \/ (ns[j].neg \in j..(n - 1) /\ ns[j].pos \in j..(n - 1) /\ ns[j].neg # ns[j].pos /\ ns[j].nfaces = 0))
+              \* a tree: the root has no parent, every other node exactly one
+              /\ Cardinality(Parents(j)) = IF j = 1 THEN 0 ELSE 1
+        \* the leaves' face ranges tile [0, total)
+        /\ \A a \in Leaves : ns[a].fstart = Sum([b \in 1..n |-> IF b \in Leaves /\ ns[b].fstart < ns[a].fstart THEN ns[b].nfaces ELSE 0])
+\* catalogue of tree shapes (children per node, 1-based, 0 = none; pre-order): leaf, root+2 leaves, left-deep, right-deep,
+\* full depth 2
+BspKids == << << <<0,0>> >>,
+              << <<2,3>>, <<0,0>>, <<0,0>> >>,
+              << <<2,5>>, <<3,4>>, <<0,0>>, <<0,0>>, <<0,0>> >>,
+              << <<2,3>>, <<0,0>>, <<4,5>>, <<0,0>>, <<0,0>> >>,
+              << <<2,5>>, <<3,4>>, <<0,0>>, <<0,0>>, <<6,7>>, <<0,0>>, <<0,0>> >> >>
+BspOf(kids) ==
+    [j \in 1..Len(kids) |->
+        LET lf == kids[j] = <<0, 0>>
+            before == Cardinality({q \in 1..(j - 1) : kids[q] = <<0, 0>>})
+        IN [axis |-> (j - 1) % 3, leaf |-> lf, neg |-> kids[j][1] - 1, pos |-> kids[j][2] - 1,
+            nfaces |-> IF lf THEN 2 + (j % 2) ELSE 0,
+            fstart |-> IF lf THEN Sum([q \in 1..(j - 1) |-> IF kids[q] = <<0, 0>> THEN 2 + (q % 2) ELSE 0]) ELSE 0]]
+BspCatalog == [t \in 1..Len(BspKids) |-> BspOf(BspKids[t])]
+BspCatalogOk == \A t \in 1..Len(BspCatalog) : BspWellFormed(BspCatalog[t])
+\* sanity of the predicate itself: swapping a child for the root, or shifting a face range, is rejected
+BspMutantsRejected ==
+    /\ ~BspWellFormed([BspCatalog[2] EXCEPT ![1].pos = 0])
+    /\ ~BspWellFormed([BspCatalog[3] EXCEPT ![4].fstart = @ + 1])
+    /\ ~BspWellFormed([BspCatalog[5] EXCEPT ![5].neg = 1])
+
 \* ------------------------------------------------------------------ shapes
 \* A root shape: list lengths and the lengths of the strings in the three tables.
 \*   [kind |-> "root", ver, ntex, nmat, ngrp, nport, pvlens (vertices of each portal; 0 allowed), npref, nvbl,
@@ -263,10 +325,14 @@ DoneFraming == lphase = "done" =>
           /\ TilesRange(AtDepth(llog, 2), g.off + HDR + MogpHdrSize, g.off + HDR + g.size))
 DoneCounts == (lphase = "done" /\ lsh.kind = "root") =>
     \A j \in 1..Len(MohdFields) : CountHolds(llog, lmohd, MohdFields[j], lsh[CountDim[MohdFields[j]]])
-DoneGroupSizes == (lphase = "done" /\ lsh.kind = "group") =>
-    /\ SizeOfTag(llog, "MOVT") = lsh.nvert * Elem.MOVT /\ SizeOfTag(llog, "MOVI") = lsh.nidx * Elem.MOVI
-    /\ SizeOfTag(llog, "MONR") = lsh.nnorm * Elem.MONR /\ SizeOfTag(llog, "MOTV") = lsh.ntc * Elem.MOTV
-    /\ SizeOfTag(llog, "MOBA") = lsh.nbatch * Elem.MOBA
+\* group sub-chunks hold exactly the records of the lists they carry (None / empty list: no chunk)
+Pos(n) == IF n > 0 THEN n ELSE 0
+GroupSizesOf(log, sh) ==
+    /\ SizeOfTag(log, "MOVT") = sh.nvert * Elem.MOVT /\ SizeOfTag(log, "MOVI") = sh.nidx * Elem.MOVI
+    /\ SizeOfTag(log, "MONR") = sh.nnorm * Elem.MONR /\ SizeOfTag(log, "MOTV") = sh.ntc * Elem.MOTV
+    /\ SizeOfTag(log, "MOBA") = sh.nbatch * Elem.MOBA /\ SizeOfTag(log, "MOCV") = Pos(sh.ncol) * Elem.MOCV
+    /\ SizeOfTag(log, "MOBN") = Pos(sh.nbsp) * Elem.MOBN /\ SizeOfTag(log, "MODR") = Pos(sh.ndref) * Elem.MODR
+DoneGroupSizes == (lphase = "done" /\ lsh.kind = "group") => GroupSizesOf(llog, lsh)
 \* string-table offsets: every MOGI record's name offset resolves to the group's own name
 \* lists of lists: every visible-block list owns a disjoint MOVB region ending in its terminator;
 \* MOPT never comes without MOPV and the portal vertex ranges lie inside MOPV
@@ -293,7 +359,8 @@ GroupSections == {"ghdr", "vertices", "indices", "normals", "tex_coords", "verte
 \* models can express
 RootApiSections  == {"textures", "group_names", "counts", "materials", "portals", "portal_refs", "lights",
                      "doodad_sets", "doodad_geom", "group_geom"}
-GroupApiSections == {"vertices", "indices", "normals", "tex_coords", "vertex_colors", "doodad_refs"}
+GroupApiSections == {"vertices", "indices", "normals", "tex_coords", "vertex_colors", "doodad_refs", "ghdr",
+                     "batch_count", "batches", "bsp_nodes"}
 
 \* Conversion a -> b keeps every section representable in both versions.  Conservative
 \* definition: version-gated fields are projected away (the driver logs both the full and the
